@@ -215,3 +215,46 @@ Section WaveSym.
     lra.
   Qed.
 End WaveSym.
+
+(* ================= ground effect = method of images (C08) ================= *)
+Lemma reflect_affine a h (p q : nat -> R) w1 w2 d : w1 + w2 = 1 ->
+  reflect a h (fun k => w1 * p k + w2 * q k) d = w1 * reflect a h p d + w2 * reflect a h q d.
+Proof.
+  intros Hw. unfold reflect, dot, o2; rops.
+  replace w2 with (1 - w1) by lra. ring.
+Qed.
+
+(* the image block of the vortex mesh is the reflection of the surface's own vortex lattice *)
+Lemma image_lattice_is_reflection npx npy left a h (m : nat -> nat -> nat -> R) i j d : (i <= npx)%nat ->
+  vortex_mesh npx npy true true left a h m (i + S npx) j d
+  = reflect a h (vortex_mesh npx npy true true left a h m i j) d.
+Proof.
+  intros Hi. unfold vortex_mesh.
+  replace (i + S npx <=? npx)%nat with false by (symmetry; apply Nat.leb_gt; lia).
+  replace (i <=? npx)%nat with true by (symmetry; apply Nat.leb_le; exact Hi).
+  replace (i + S npx - S npx)%nat with i by lia.
+  unfold qc_rows. destruct (i <? npx)%nat.
+  - unfold c075, c025, ofrac; rops.
+    assert (Hw : 75 / 100 + 25 / 100 = 1) by field.
+    rewrite <- (reflect_affine a h (ghost_mesh npy left m i j) (ghost_mesh npy left m (S i) j) (75 / 100) (25 / 100) d Hw).
+    reflexivity.
+  - reflexivity.
+Qed.
+
+(* the reflected lattice enters with strength -1 (AeroProofs.ground_image_strength), a ring and its image
+   of opposite strength leave the plane impermeable (Reflect.image_pair_impermeable), the plane is parallel
+   to the wake direction and lies at distance h from the origin along n = (sin a, 0, -cos a): *)
+Lemma ground_plane_point a h : dot (fun k => h * @plane_n R Rops a k) (plane_n a) = h.
+Proof.
+  pose proof (ground_plane_normal_unit a) as H. unfold dot in *; rops.
+  set (n := plane_n a) in *.
+  replace (h * n 0%nat * n 0%nat + h * n 1%nat * n 1%nat + h * n 2%nat * n 2%nat)
+    with (h * (n 0%nat * n 0%nat + n 1%nat * n 1%nat + n 2%nat * n 2%nat)) by ring.
+  rewrite H. ring.
+Qed.
+
+Lemma ground_plane_below_origin a h : 0 < h -> - PI / 2 < a < PI / 2 -> h * @plane_n R Rops a 2%nat < 0.
+Proof.
+  intros Hh Ha. unfold plane_n, mk3; rops.
+  assert (0 < cos a) by (apply cos_gt_0; lra). nra.
+Qed.
